@@ -534,7 +534,8 @@ SPEC = PropSpec(
                  "R12.4 (modulus = 2**14). Does not decide warning texts."
                  ' APID 0 and 2047 take part like any other; with ccsds_headers_only every raw packet is handed out whatever its flags and the combining option.'
                  ' Members of one group may differ in version, type and secondary-header flag (the group is identified by its APID alone).'
-                 ' Histories include groups whose members all carry telecommand type / a secondary header / version 7 (also on APID 2047), with gaps, in sequence, and with orphans and repeated counts.'),
+                 ' Histories include groups whose members all carry telecommand type / a secondary header / version 7 (also on APID 2047), with gaps, in sequence, and with orphans and repeated counts.'
+                 ' A subset of histories is crossed with skip_header_bytes, read size, progress display and the bad-packet option; R12.long (thorough): one group of 16387 packets.'),
     rule_doc=("R12.1: one obligation per (designed history, secondary-header length in {0,2}); R12.off: combining "
               "disabled; R12.4: folded modulus; R12.exh (thorough): all histories of length <= 4 over "
               "{F,C,L,U}x{+1,+2} on one APID and {F,C,L}x{2 APIDs} in sequence."),
